@@ -27,6 +27,8 @@ structure HState where
   notifyDebt : Bool                         -- a tick returned `running` and no notify has been seen since
   colStatus : List PStatus := []
   debtHold : Nat := 0                       -- hold mode of the tick that reported `running`
+  midCount : Nat := 0                       -- value of the reservation counter when that run took its snapshot
+  midK : Option Nat := none                 -- the pending run is parked at its k-th scored item
   parkedResult : Option (Worker × Bool) := none   -- a run that already executed and is parked in front of releasing the lock
 
 def kindOfNat (n : Nat) : AtomKind :=
@@ -39,8 +41,16 @@ def setStream (st : HState) (s : Nat) (l : List (Option Item)) : HState :=
 def obsNow (st : HState) : Obs :=
   let str := getStream st st.n.worker.stream
   let look : Nat → Option Item := fun i => (str.getD i none)
-  { seen0 := look, seen1 := look, count := str.length, inFlightOrder := id,
-    sawCancel := fun _ => st.n.cancelFlag, sortCanceled := st.n.cancelFlag, shouldNotify := st.n.shouldNotify }
+  let flag := st.n.cancelFlag
+  match st.midK with
+  | none =>
+    { seen0 := look, seen1 := look, count := str.length, inFlightOrder := id,
+      sawCancel := fun _ => flag, sortCanceled := flag, shouldNotify := st.n.shouldNotify }
+  | some k =>
+    -- parked in front of the cancel check of its k-th published new item / at the body of its k-th match
+    { seen0 := look, seen1 := look, count := st.midCount, inFlightOrder := id,
+      sawCancel := fun pos => flag && pos + 1 ≥ k, sawCancelRescore := fun pos => flag && pos ≥ k,
+      sortCanceled := flag, shouldNotify := st.n.shouldNotify }
 
 /-- the parked run is let go: it executes now (or only releases the lock if it already ran) -/
 def execPending (e : HEnv) (st : HState) : HState × Nat :=
@@ -51,7 +61,7 @@ def execPending (e : HEnv) (st : HState) : HState × Nat :=
     | some r => ({ st with n := { st.n with worker := r.1, pending := none }, parkedResult := none }, 0)
     | none =>
       let (w, notified) := st.n.worker.run e.score e.len p.status p.cleared (e.emptyPats.contains st.n.worker.pattern) (obsNow st)
-      ({ st with n := { st.n with worker := w, pending := none } }, if notified then 1 else 0)
+      ({ st with n := { st.n with worker := w, pending := none }, midK := none }, if notified then 1 else 0)
 
 def showSnap (e : HEnv) (s : Snapshot) : String :=
   let ms := s.hits.map (fun m => s!"{m.score}.{m.idx}")
@@ -73,7 +83,7 @@ def runNow (e : HEnv) (st : HState) (w : Worker) : Worker × Bool :=
     with the oracle filled in.  `hold = 1`: the first run spawned by this tick parks before doing
     anything; `hold = 2`: it parks after it has done everything (including reading `should_notify`) but
     before it releases the worker lock.  Returns the notify calls made by runs during the event. -/
-def tickEvent (e : HEnv) (st : HState) (hold : Nat) : HState × TickStatus × Nat := Id.run do
+def tickEvent (e : HEnv) (st : HState) (hold : Nat) (midK : Nat := 0) : HState × TickStatus × Nat := Id.run do
   let canceled := st.n.status ≠ .unchanged || st.n.state.canceled
   let count := curCount st
   -- run in flight when the tick begins (parked at its start or at its end)
@@ -91,8 +101,8 @@ def tickEvent (e : HEnv) (st : HState) (hold : Nat) : HState × TickStatus × Na
     -- state after the first tick_inner, to know what the spawned run sees
     let n0 := ({ stC.n with status := .unchanged }).joinRun (fun _ => r0.1)
     let r1 := tickInnerLocked n0 true st.n.status count
-    let stMid : HState := { stC with n := { r1.1 with state := .fresh }, parkedResult := none }
-    if hold ≠ 1 then
+    let stMid : HState := { stC with n := { r1.1 with state := .fresh }, parkedResult := none, midK := none }
+    if hold ≠ 1 ∧ hold ≠ 3 then
       let rr := runNow e stMid stMid.n.worker
       nf1 := if rr.2 then 1 else 0
       if hold = 2 then parked1 := some rr
@@ -101,7 +111,8 @@ def tickEvent (e : HEnv) (st : HState) (hold : Nat) : HState × TickStatus × Na
         lock2 := true
   let o : TickOracle := { count1 := count, count2 := count, lock1 := false, lock2 := lock2, run0 := fun _ => r0.1, run1 := run1 }
   let (n', ts) := st.n.tick o
-  let mut s := { st with n := n', parkedResult := if joins0 then parked1 else (if hadPending then st.parkedResult else parked1),
+  let mut s := { st with n := n', midK := if joins0 then none else st.midK,
+                         parkedResult := if joins0 then parked1 else (if hadPending then st.parkedResult else parked1),
                          colStatus := if canceled then st.colStatus.map (fun _ => PStatus.unchanged) else st.colStatus }
   -- a run spawned by the last tick_inner and not held runs to completion right after the tick returns;
   -- with hold = 2 it runs now but keeps the lock
@@ -116,6 +127,9 @@ def tickEvent (e : HEnv) (st : HState) (hold : Nat) : HState × TickStatus × Na
       let rr := runNow e s s.n.worker
       nf2 := if rr.2 then 1 else 0
       s := { s with parkedResult := some rr }
+  -- hold = 3: the run spawned by this tick is parked at its k-th scored item
+  if hold = 3 && s.n.pending.isSome && !(hadPending && !canceled) then
+    s := { s with midK := some midK, midCount := (getStream s s.n.worker.stream).length }
   return (s, ts, nf0 + nf1 + nf2)
 
 def liveHandles (st : HState) : Nat := (st.n.injectors.filter (fun p => p.2 = st.n.cur)).length
@@ -240,7 +254,7 @@ def hEvent (e : HEnv) (st : HState) (ev : String) : HState := Id.run do
     let hold := num 1
     let before := s.lastSnap
     s := { s with notifyDebt := false }
-    let (s', ts, mnf) := tickEvent e s hold
+    let (s', ts, mnf) := tickEvent e s hold (num 4)
     s := s'
     let want := s!"{if ts.changed then 1 else 0}{if ts.running then 1 else 0}"
     if ret ≠ want then issues := issues ++ [s!"DIFF tick status: model {want} impl {ret}"]
